@@ -259,17 +259,15 @@ def spec_verdict(case, variant):
     if variant == "-":
         return "fail" if (conflict or duplicate) else "ok"
     if variant == "a":
-        if duplicate and not conflict:
-            return "fail"
-        if not duplicate and not conflict:
+        # -autoname: a failure always comes from a duplicate (78f76aa: not from a conflict, nor from a renamed
+        # call that occurs again); a duplicate-only package must fail; duplicate + conflict: not determined
+        if not duplicate:
             return "ok"
-        return None
+        return "fail" if not conflict else None
     if variant == "d":
-        if conflict and not duplicate:
-            return "fail"
-        if not duplicate and not conflict:
+        if not conflict:
             return "ok"
-        return None
+        return "fail" if not duplicate else None
     return "ok"
 
 
